@@ -924,6 +924,25 @@ fn big_stream(ctx: &mut Ctx) {
 	big_for::<TwinU32, VecDeque<TwinU32>>(ctx, "VecDeque<TwinU32>");
 	big_for::<u16, LinkedList<u16>>(ctx, "LinkedList<u16>");
 	big_for::<u32, BTreeSet<u32>>(ctx, "BTreeSet<u32>");
+	// a long shared byte buffer: zero-copy path across several chunk sizes
+	#[cfg(feature = "bytes-f")]
+	for n in [16383usize, 16385, 50000] {
+		let data: Vec<u8> = (0..n).map(|i| (i * 7 % 251) as u8).collect();
+		let v = bytes::Bytes::from(data.clone());
+		let mut bs = v.encode();
+		bs.push(0x5a);
+		let (ans, _) = dec_answer::<bytes::Bytes>(&bs);
+		ctx.emit("big-rt", "Bytes", &format!("dec bytes {}", hex_or_dash(&bs)), &ans);
+		let whole = parity_scale_codec::decode_from_bytes::<(bytes::Bytes, u8)>(bytes::Bytes::from(bs.clone()));
+		match whole {
+			Ok((b, t)) if b[..] == data[..] && t == 0x5a => {},
+			other => ctx.oracle_fail("C08", format!("decode_from_bytes of a {}-byte Bytes followed by a byte gives {:?}", n, other.map(|(b, t)| (b.len(), t)).map_err(|_| "err"))),
+		}
+		let cut = &bs[..bs.len() - 2];
+		if parity_scale_codec::decode_from_bytes::<bytes::Bytes>(bytes::Bytes::copy_from_slice(cut)).is_ok() {
+			ctx.oracle_fail("C14", format!("decode_from_bytes accepted a truncated {}-byte Bytes", n));
+		}
+	}
 	// a long string (the Vec<u8> bulk path plus UTF-8 validation)
 	for n in [16383usize, 16384, 16385, 40000] {
 		let s: String = (0..n).map(|i| if i % 7 == 0 { 'é' } else { 'a' }).collect();
